@@ -108,7 +108,8 @@ type Action struct {
 	Delay     time.Duration // reply (default or overridden) after Delay, asynchronously
 	NoReply   bool          // swallow the request
 	Drop      bool          // close the connection instead of replying
-	Hold      chan struct{} // wait on this channel (asynchronously) before replying
+	Hold      chan struct{} // wait on this channel before replying
+	Async     bool          // Delay/Hold do not block later requests of the same connection (out-of-order reply); default: in order, as memcached executes a connection's commands
 	After     func()        // run after the reply has been queued
 }
 
@@ -625,7 +626,7 @@ func (c *conn) handle(p *pkt) {
 				}
 			}
 			if a.Delay > 0 || a.Hold != nil {
-				go func() {
+				wait := func() {
 					if a.Hold != nil {
 						<-a.Hold
 					}
@@ -633,7 +634,12 @@ func (c *conn) handle(p *pkt) {
 						time.Sleep(a.Delay)
 					}
 					do()
-				}()
+				}
+				if a.Async {
+					go wait()
+				} else {
+					wait()
+				}
 				return
 			}
 			do()
